@@ -1,0 +1,13 @@
+//go:build verif
+
+package example
+
+import "github.com/hneemann/parser2/funcGen"
+
+// Verification hook (add-only): the example generators of this package.
+
+// VerifBool returns the bool expression generator of bool.go.
+func VerifBool() *funcGen.FunctionGenerator[bool] { return boolParser }
+
+// VerifFloat returns the minimal float64 generator of minimal.go.
+func VerifFloat() *funcGen.FunctionGenerator[float64] { return minimal }
